@@ -89,6 +89,14 @@ func ScopeMiddleware(provider godi.Provider, opts ...Option) func(http.Handler) 
 		opt(cfg)
 	}
 
+	// A nil handler means the default one
+	if cfg.ErrorHandler == nil {
+		cfg.ErrorHandler = defaultConfig().ErrorHandler
+	}
+	if cfg.CloseErrorHandler == nil {
+		cfg.CloseErrorHandler = defaultConfig().CloseErrorHandler
+	}
+
 	return func(next http.Handler) http.Handler {
 		return http.HandlerFunc(func(w http.ResponseWriter, r *http.Request) {
 			scope, err := provider.CreateScope(r.Context())
